@@ -57,6 +57,50 @@ fn invalid_variants(p: &Project) -> Vec<(&'static str, Project)> {
     let mut q = p.clone();
     q.files.push(("bad.ts".to_string(), "export const X = iso(`field Nope.X { id }`)(x => x);\n".to_string()));
     out.push(("undefined-parent-type-in-new-file", q));
+    // one error class per variant: a diagnostic produced by a different phase may be the only one
+    // present, and the property quantifies over any error diagnostic
+    let mut q = p.clone();
+    q.files[0].1 = format!("{src}\nexport const Dup = iso(`field Query.Root {{ count, }}`)(x => x);\n");
+    out.push(("duplicate-definition-same-file", q));
+    let mut q = p.clone();
+    q.files.push(("dup.ts".to_string(), "import { iso } from '@iso';\nexport const Dup = iso(`field Query.Root { count, }`)(x => x);\n".to_string()));
+    out.push(("duplicate-definition-new-file", q));
+    let mut q = p.clone();
+    q.files.push(("dupp.ts".to_string(), "import { iso } from '@iso';\nexport const A = iso(`pointer Query.Ptr to User { me { __link, }, }`)(x => x);\nexport const B = iso(`pointer Query.Ptr to User { me { __link, }, }`)(x => x);\n".to_string()));
+    out.push(("duplicate-pointer-definition", q));
+    let mut q = p.clone();
+    q.files[0].1 = src.replacen("{\n", "{\n  count @nope\n", 1);
+    out.push(("unknown-selection-directive", q));
+    let mut q = p.clone();
+    q.files[0].1 = src.replacen("{\n", "{\n  count @loadable\n", 1);
+    out.push(("loadable-on-server-scalar", q));
+    let mut q = p.clone();
+    q.files[0].1 = src.replacen("{\n", "{\n  count {\n    id\n  }\n", 1);
+    out.push(("scalar-selected-as-object", q));
+    let mut q = p.clone();
+    q.files[0].1 = src.replacen("{\n", "{\n  me\n", 1);
+    out.push(("object-selected-as-scalar", q));
+    let mut q = p.clone();
+    q.files[0].1 = src.replacen("{\n", "{\n  user {\n    id\n  }\n", 1);
+    out.push(("missing-required-argument", q));
+    let mut q = p.clone();
+    q.files[0].1 = src.replacen("{\n", "{\n  user(id: $undefinedVar) {\n    id\n  }\n", 1);
+    out.push(("undefined-variable", q));
+    let mut q = p.clone();
+    q.files[0].1 = src.replacen("{\n", "{\n  user(id: 1, nope: 2) {\n    id\n  }\n", 1);
+    out.push(("unknown-argument", q));
+    let mut q = p.clone();
+    q.files.push(("nf.ts".to_string(), "import { iso } from '@iso';\nexport const Z = iso(`field User.Zed { id, }`)(x => x);\nconst e = iso(`entrypoint User.Zed`);\n".to_string()));
+    out.push(("entrypoint-on-non-root-type", q));
+    let mut q = p.clone();
+    q.files.push(("vt.ts".to_string(), "import { iso } from '@iso';\nexport const V = iso(`field Query.VarTy($v: Nope) { user(id: $v) { id, }, }`)(x => x);\n".to_string()));
+    out.push(("unknown-variable-type", q));
+    let mut q = p.clone();
+    q.schema = format!("{}\ntype Extra {{ f: NopeType }}\n", p.schema);
+    out.push(("schema-undefined-type", q));
+    let mut q = p.clone();
+    q.files.push(("ptr.ts".to_string(), "import { iso } from '@iso';\nexport const P = iso(`pointer Query.Bad to Nope { me { __link, }, }`)(x => x);\n".to_string()));
+    out.push(("pointer-to-undefined-type", q));
     out
 }
 
@@ -180,8 +224,9 @@ pub fn main(args: &Args) -> i32 {
     let pairs = res.stats.extra.get("pairs").copied().unwrap_or(0);
     ev.set("evaluations", pairs)
         .set("distinct_nontrivial", pairs)
-        .set("rule", "every accepted program P of the stated families x 6 invalid variants Q (parse error, undefined field, undefined entrypoint, duplicate selection, schema syntax error, new file with undefined parent type) x {fresh batch compile, watch-mode recompile in the same compiler state}; artifact directory snapshot (paths, bytes, mtimes, directories) must be identical after the failed compile")
+        .set("rule", "every accepted program P of the stated families x the single-error invalid variants Q listed under variant_kinds (one error class each, so that a diagnostic produced by a later phase is the only one present) x {fresh batch compile, watch-mode recompile in the same compiler state}; artifact directory snapshot (paths, bytes, mtimes, directories) must be identical after the failed compile")
         .set("base_programs", res.stats.accepted)
+        .set("variant_kinds", json!(invalid_variants(&crate::project::Project { files: vec![(String::new(), String::new())], ..Default::default() }).iter().map(|(k, _)| *k).collect::<Vec<_>>()))
         .set("families", json!(res.families.iter().map(|(f, n)| json!({"menu": format!("{:?}", f.menu), "k": f.k, "programs": n})).collect::<Vec<_>>()))
         .set("samples", json!(res.stats.samples))
         .set("known_findings_reobserved", json!(known))
